@@ -344,7 +344,7 @@ func c16Run(ctx *core.Ctx) {
 			continue
 		}
 		hasConflict := false
-		for _, order := range perms(len(fs.Files)) {
+		for _, order := range fileOrders(len(fs.Files)) {
 			w := ref.MergeRef(toMFiles(fs.Files, order), "1.2")
 			if len(w.Malformed) == 0 && len(w.Conflicts) > 0 {
 				hasConflict = true
@@ -359,7 +359,7 @@ func c16Run(ctx *core.Ctx) {
 		}
 		ctx.Eval(1)
 		special := i < len(c16MergeSets())
-		for _, order := range perms(len(fs.Files)) {
+		for _, order := range fileOrders(len(fs.Files)) {
 			for si, st := range uniformStyles() {
 				if !special && !ctx.Thorough() && si%8 != i%8 && si != 0 {
 					continue // quick: canonical plus a rotating eighth of the styles for the generic sets
